@@ -98,6 +98,8 @@ type sys struct {
 	authOK   map[uint16]bool   // the owner's PAP exchange on this session was accepted by the back end
 	cookieOf map[string][]byte // last AC-Cookie offered to the station
 	ident    byte
+	waits    int
+	t0       time.Time // virtual time at the start of the execution (reference for absolute timestamps)
 	hist     []string
 	viols    []explore.Viol
 }
@@ -119,7 +121,7 @@ func newSys(c cfg) *sys {
 		}
 		srv.SetRADIUSClient(rc)
 	}
-	return &sys{c: c, srv: srv, sidOf: map[string]uint16{}, owner: map[uint16]string{}, authOK: map[uint16]bool{}, cookieOf: map[string][]byte{}}
+	return &sys{c: c, srv: srv, t0: time.Now(), sidOf: map[string]uint16{}, owner: map[uint16]string{}, authOK: map[uint16]bool{}, cookieOf: map[string][]byte{}}
 }
 
 func (s *sys) v(kind, site, f string, a ...any) {
@@ -172,38 +174,52 @@ func pap(id byte, user, pass string) []byte {
 
 var sessionKinds = []string{"LCP-CR", "LCP-Ack", "LCP-Nak", "LCP-TR", "LCP-Echo", "PAP-good", "PAP-bad", "IPCP-CR(0)", "IPCP-CR(assigned)", "IPCP-CR(foreign)", "IPCP-Ack", "IP"}
 
-// liveTargets: session ids of the most recent session of A and of B that still exist.
+// liveTargets: the ids of all live sessions (a station may hold several: every
+// PADR creates one). Ids are handed out sequentially, so they are deterministic.
 func (s *sys) liveTargets() []string {
 	var out []string
-	live := map[uint16]bool{}
 	for _, se := range s.srv.VerifC04Sessions() {
-		live[se.ID] = true
-	}
-	for _, o := range []string{"A", "B"} {
-		if sid, ok := s.sidOf[o]; ok && live[sid] {
-			out = append(out, o)
-		}
+		out = append(out, fmt.Sprint(se.ID))
 	}
 	return out
 }
 
-// Ops: "<frame>[@<owner of the target session>]:<sender>"
+// Ops: "<frame>[@<target session id>]:<sender>", "wait" (virtual time passes, no frame)
 func (s *sys) Ops() []string {
-	ops := []string{"PADI:A", "PADR:A", "PADR:B", "PADR-nocookie:A"}
-	targets := s.liveTargets()
-	nSessions := len(s.srv.VerifC04Sessions())
-	if nSessions >= 3 { // bound the table: at most three sessions per execution
+	// Symmetry reduction (stations are interchangeable except through the
+	// sessions they own): the first session is always A's, and a station that
+	// owns no live session is represented by F.
+	ops := []string{"PADI:A", "PADR:A", "PADR-nocookie:A"}
+	if len(s.owner) > 0 {
+		ops = append(ops, "PADR:B")
+	}
+	sessions := s.srv.VerifC04Sessions()
+	if len(sessions) >= 3 { // bound the table: at most three sessions per execution
 		ops = []string{"PADI:A"}
 	}
-	for _, t := range targets {
-		for _, snd := range []string{"A", "B", "F"} {
+	owns := map[string]bool{}
+	for _, se := range sessions {
+		owns[s.ownerOfMAC(se.ClientMAC)] = true
+	}
+	var senders []string
+	for _, x := range []string{"A", "B"} {
+		if owns[x] {
+			senders = append(senders, x)
+		}
+	}
+	senders = append(senders, "F")
+	for _, t := range s.liveTargets() {
+		for _, snd := range senders {
 			ops = append(ops, "PADT@"+t+":"+snd)
 			for _, k := range sessionKinds {
 				ops = append(ops, k+"@"+t+":"+snd)
 			}
 		}
 	}
-	ops = append(ops, "PADT@unused:A", "PADT@unused:F")
+	ops = append(ops, "PADT@unused:F")
+	if s.waits < maxWaits {
+		ops = append(ops, "wait")
+	}
 	return ops
 }
 
@@ -222,15 +238,16 @@ type snap struct {
 }
 
 var sessSkip = map[string]bool{
-	// statistics and activity timestamp: updated for every received frame, read only by
-	// Stats-style getters and the idle cleanup; not part of "the session changed"
+	// traffic statistics: read only by Stats-style getters. The activity
+	// timestamp is NOT skipped: it decides whether the idle cleanup reaps the
+	// session, so a frame that refreshes it has changed the session.
 	"Session.BytesIn": true, "Session.BytesOut": true, "Session.PacketsIn": true, "Session.PacketsOut": true,
 }
 
 func (s *sys) snapshot() snap {
 	sn := snap{dump: map[uint16]string{}, owner: map[uint16]string{}}
 	for _, se := range s.srv.VerifC04Sessions() {
-		sn.dump[se.ID] = deepdump.Dump(se, deepdump.Options{IgnoreTimes: true, SkipFields: sessSkip})
+		sn.dump[se.ID] = deepdump.Dump(se, deepdump.Options{Now: s.t0, SkipFields: sessSkip}) // timestamps relative to the start of the execution
 		sn.owner[se.ID] = s.ownerOfMAC(se.ClientMAC)
 	}
 	return sn
@@ -245,8 +262,23 @@ func (s *sys) ownerOfMAC(m net.HardwareAddr) string {
 	return "?"
 }
 
+// maxWaits bounds the number of "wait" ops per execution (each is a deviation
+// from the back-to-back frame sequence).
+const maxWaits = 1
+
+// waitStep is shorter than any idle timeout: nothing expires, but a later touch
+// of a session's activity timestamp becomes visible.
+const waitStep = time.Minute
+
 func (s *sys) Apply(op string) string {
 	s.hist = append(s.hist, op)
+	if op == "wait" {
+		s.waits++
+		time.Sleep(waitStep)
+		synctest.Wait()
+		s.checkState(op)
+		return "t+1m"
+	}
 	head, snd, _ := strings.Cut(op, ":")
 	kind, tgt, _ := strings.Cut(head, "@")
 	src := macs[snd]
@@ -256,7 +288,9 @@ func (s *sys) Apply(op string) string {
 	if tgt == "unused" {
 		sid = 0x7777
 	} else if tgt != "" {
-		sid = s.sidOf[tgt]
+		var n int
+		fmt.Sscanf(tgt, "%d", &n)
+		sid = uint16(n)
 	}
 	papGood := false
 	switch kind {
@@ -426,13 +460,15 @@ func (s *sys) checkState(op string) {
 //   statistics counters of Session and Server: read only by GetStats
 var fpSkip = map[string]bool{
 	"Session.MagicNumber": true, "Session.SessionID": true, "IPPool.allocated": true,
+	"Session.CreatedAt": true, // never read by the server
 	"Session.BytesIn": true, "Session.BytesOut": true, "Session.PacketsIn": true, "Session.PacketsOut": true,
 	"Server.padiReceived": true, "Server.padoSent": true, "Server.padrReceived": true, "Server.padsSent": true,
 	"Server.padtReceived": true, "Server.padtSent": true, "Server.sessionsTotal": true,
 }
 
 func (s *sys) Fingerprint() string {
-	d := deepdump.Dump(s.srv, deepdump.Options{IgnoreTimes: true, SkipFields: fpSkip, SkipTypes: map[string]bool{"radius.Client": true, "pppoe.verifC04Socket": true}})
+	// timestamps (LastActivity, EstablishedAt) relative to the current virtual time
+	d := deepdump.Dump(s.srv, deepdump.Options{Now: time.Now(), SkipFields: fpSkip, SkipTypes: map[string]bool{"radius.Client": true, "pppoe.verifC04Socket": true}})
 	var ok []string
 	for id, v := range s.authOK {
 		if v {
@@ -440,7 +476,7 @@ func (s *sys) Fingerprint() string {
 		}
 	}
 	sort.Strings(ok)
-	return d + "|auth=" + strings.Join(ok, ",") + fmt.Sprintf("|sid=%v", s.sidOf)
+	return d + "|auth=" + strings.Join(ok, ",") + fmt.Sprintf("|waits=%d", s.waits)
 }
 
 func (s *sys) Check() []explore.Viol { return s.viols }
@@ -457,7 +493,7 @@ func bubble(t *testing.T) func(func()) {
 
 func models(run *report.Run, t *testing.T) []*explore.Model {
 	depth, nd := 5, 2
-	budget := 20 * time.Second
+	budget := 30 * time.Second
 	if run.Thorough() {
 		depth, nd = 6, 3
 		budget = 5 * time.Minute
@@ -480,7 +516,8 @@ func TestCheck(t *testing.T) {
 	run.Assumptions = []string{
 		"pppoe.Server has no CHAP handler and no local user table: without RADIUS every PAP request is accepted (that is its back end); CHAP frames are outside the alphabet",
 		"frames are well formed (malformed lengths are property C09)",
-		"at most three sessions per execution",
+		"stations are interchangeable except through the sessions they own: the first session is A's; a station owning no live session is represented by F",
+		"at most three sessions per execution (a station may hold several) and at most one 'wait' (one minute of virtual time without frames)",
 	}
 	vradius.SetExchange(scriptedExchange)
 	ms := models(run, t)
